@@ -838,3 +838,127 @@ def rule_M1(prog, fixture=False):
                         "refreshes it" % (", ".join(sorted({a[1] for a in dep})) or "none"), func=f.name, extra=extra)
     res.stats["keeping_functions"] = nfun
     return res
+
+
+# ------------------------------------------------------------------------------------------------
+# Y1: an assignment operator stores nothing computed from the destination's previous members
+def _y1_this_field(n):
+    n = n.strip_all()
+    if n.k == "MemberExpr" and n.decl and n.decl.get("k") == "field" and (not n.c or n.c[0].strip_all().k == "CXXThisExpr"):
+        return n.decl["n"]
+    return None
+
+
+def rule_Y1(prog, fixture=False):
+    res = RuleResult("Y1", "a user-provided copy / move assignment stores only what comes from its source: no value written into a "
+                           "member is computed from a member of the destination that has not yet been taken over from the source "
+                           "on every path (a clone made with the destination's old type tag, a length left from the old object)")
+    from .flow import ACCESS_METHODS
+    nops = 0
+    seen = set()
+    for f in sorted(prog.functions.values(), key=lambda g: (g.file, g.line, g.name)):
+        if not f.cls or f.get("implicit") or f.get("defaulted") or f.name.rsplit("::", 1)[-1] != "operator=" or len(f.params) != 1:
+            continue
+        cl = f.cls.rsplit("::", 1)[-1].split("<")[0]
+        pt = f.params[0].get("t", "")
+        if not re.search(r"\b%s\b" % re.escape(cl), pt) or "initializer_list" in pt:
+            continue
+        # same class (slice_t = const_slice_t is an element copy, not an assignment of the object)
+        pcl = re.sub(r"^(const )?(dsplib::)?", "", pt).split("<")[0].strip(" &")
+        if pcl != cl:
+            continue
+        if not f.blocks:
+            continue
+        if (f.file, f.line) in seen and not fixture:
+            pass
+        nops += 1
+        rel = prog.rel(f.file)
+        key = "Y1:%s" % fkey(f)
+        where = "%s:%d" % (rel, f.line)
+        extra = {"props": ["C05"] + (["C08"] if "resample" in rel else [])}
+        defs = {}
+        fwrites = []      # (node, field, value expressions)
+        targets = set()   # ids of the nodes that are written, not read
+        for n in f.walk():
+            if n.k == "VarDecl" and n.c and n.decl:
+                defs.setdefault(n.decl["id"], []).append(n.c[0])
+            tgt, vals = None, []
+            if n.k in ("BinaryOperator", "CompoundAssignOperator") and n.op and n.op.endswith("=") and n.op not in ("==", "!=", "<=", ">=") and len(n.c) == 2:
+                tgt, vals = n.c[0], [n.c[1]] + ([n.c[0]] if n.op != "=" else [])
+                l0 = n.c[0].strip_all()
+                if l0.k == "DeclRefExpr" and l0.decl and l0.decl.get("k") == "local":
+                    defs.setdefault(l0.decl["id"], []).append(n.c[1])
+            elif n.k == "CXXOperatorCallExpr" and n.op and n.op.endswith("=") and n.op not in ("==", "!=", "<=", ">=") and len(n.c) >= 3:
+                tgt, vals = n.c[1], [n.c[2]] + ([n.c[1]] if n.op != "=" else [])
+            elif n.is_call() and n.callee:
+                ce = n.callee
+                obj = n.call_object()
+                args = n.call_args()
+                pm = ce.get("pm", [])
+                nm = (ce.get("qn") or "").rsplit("::", 1)[-1]
+                if obj is not None and "cls" in ce and not ce.get("const") and n.k != "CXXConstructExpr" and nm not in ACCESS_METHODS \
+                        and _y1_this_field(obj):
+                    tgt, vals = obj, list(args)
+                else:
+                    refs = [a for i, a in enumerate(args) if (pm[i] if i < len(pm) else "val") in ("ref", "ptr") and _y1_this_field(a)]
+                    if refs:
+                        for a in refs:
+                            targets.add(a.strip_all().id)
+                        tgt, vals = refs[0], [b for b in args if not any(b.id == r.id for r in refs)]
+            if tgt is None:
+                continue
+            fld = _y1_this_field(tgt)
+            if fld is None:
+                continue
+            if n.op == "=" or n.k not in ("BinaryOperator", "CompoundAssignOperator", "CXXOperatorCallExpr"):
+                targets.add(tgt.strip_all().id)
+            fwrites.append((n, fld, vals))
+        if not fwrites:
+            res.add(key, DISCHARGED, where, f.short, "writes no member as a whole (element-wise copy through the object's storage)",
+                    func=f.name, extra=extra)
+            continue
+
+        def stale(r, fld):
+            for (w, g, _) in fwrites:
+                if g == fld and w is not None and f.precedes(w, r) and not any(x.id == r.id for x in w.walk()):
+                    return False
+            return True
+
+        def closure(exprs, seen_ids):
+            for e in exprs:
+                for x in e.walk():
+                    yield x
+                    if x.k == "DeclRefExpr" and x.decl and x.decl.get("k") in ("local", "binding") and x.decl.get("id") not in seen_ids:
+                        seen_ids.add(x.decl["id"])
+                        yield from closure(defs.get(x.decl["id"], ()), seen_ids)
+
+        bad = None
+        for (w, g, vals) in fwrites:
+            for x in closure(vals, set()):
+                fld = _y1_this_field(x) if x.k == "MemberExpr" else None
+                if fld is None or x.id in targets:
+                    continue
+                # asking the old object for its element count / emptiness says nothing about what is stored
+                p = x.parent
+                while p is not None and p.k in ("ImplicitCastExpr", "ParenExpr"):
+                    p = p.parent
+                if p is not None and p.k == "MemberExpr" and p.decl and p.decl.get("n") in ("size", "empty", "capacity", "length"):
+                    continue
+                if stale(x, fld):
+                    bad = (w, g, x, fld)
+                    break
+            if bad:
+                break
+        if bad:
+            (w, g, x, fld) = bad
+            res.add(key, VIOLATED, "%s:%d" % (rel, x.line), f.short,
+                    "the value stored into %s (line %d: %s) is computed from the destination's own %s (line %d), which no path has "
+                    "replaced by the source's yet: the assigned object is built from the old object's %s and the new object's data"
+                    % (g, w.line, w.text()[:80], fld, x.line, fld), func=f.name, extra=extra)
+        else:
+            res.add(key, DISCHARGED, where, f.short, "every value stored into a member (%s) comes from the source or from members already "
+                    "taken over from it" % ", ".join(sorted({g for (_, g, _) in fwrites})), func=f.name, extra=extra)
+    if not nops and not fixture:
+        res.broken.append("anchor vanished: no user-provided copy / move assignment in the library")
+    res.stats["assignment_operators"] = nops
+    return res
